@@ -300,6 +300,111 @@ theorem C21_no_shared_state (k : Kernel) (hk : rulesOk k = true) :
   exact ⟨C21_no_shared_state_go k.body ⟨true, hasExcl k.body, false, false, false, 1024⟩ false hd (by simp),
     C21_pragma_before_outermost_outer k.body ⟨true, hasExcl k.body, false, false, false, 1024⟩ false rfl⟩
 
+
+/-- the @atomic statements and regions of a kernel (a region holding exactly one `+= -= ++ --`
+    statement counts once: `applyBlockCodeTransformation` turns it into that statement) -/
+def atomicCount : Tree → Nat
+  | .nil => 0
+  | .node n kids next =>
+    (match n.kind with
+     | .expr a _ => if a then 1 else 0
+     | .block true => if singleBasicExpr kids then 1 else 1 + atomicCount kids
+     | .decl _ | .barrier | .brk | .cont | .ret => 0
+     | _ => atomicCount kids) + atomicCount next
+
+/-- `#pragma omp atomic` / `#pragma omp critical` lines of a target tree -/
+def guardCount : TT → Nat
+  | .nil => 0
+  | .node k kids next =>
+    (if k = .pragma .ompAtomic ∨ k = .pragma .ompCritical then 1 else 0) + guardCount kids + guardCount next
+
+theorem guardCount_append (a b : TT) : guardCount (a.append b) = guardCount a + guardCount b := by
+  induction a with
+  | nil => simp [TT.append, guardCount]
+  | node k kids next _ ihn => simp only [TT.append, guardCount, ihn]; omega
+
+theorem gc_ite_leaf (b : Bool) (k : TKind) (hk : k ≠ .pragma .ompAtomic ∧ k ≠ .pragma .ompCritical) (x : TT) :
+    guardCount (if b = true then TT.leaf k x else x) = guardCount x := by
+  cases b <;> simp [TT.leaf, guardCount, hk.1, hk.2]
+
+theorem gc_ite_inc (b : Bool) (x : TT) :
+    guardCount (if b = true then x.append (TT.leaf .xiInc .nil) else x) = guardCount x := by
+  cases b <;> simp [guardCount_append, TT.leaf, guardCount]
+
+theorem gc_node (k : TKind) (hk : k ≠ .pragma .ompAtomic ∧ k ≠ .pragma .ompCritical) (a b : TT) :
+    guardCount (.node k a b) = guardCount a + guardCount b := by
+  simp [guardCount, hk.1, hk.2]
+
+theorem single_false (kids : Tree) (h : ∀ a u, kids = .node ⟨.expr a true, u⟩ .nil .nil → False) :
+    singleBasicExpr kids = false := by
+  cases kids with
+  | nil => rfl
+  | node n k2 n2 =>
+    obtain ⟨kd, u⟩ := n
+    cases k2 with
+    | node _ _ _ => simp [singleBasicExpr]
+    | nil =>
+      cases n2 with
+      | node _ _ _ => simp [singleBasicExpr]
+      | nil =>
+        cases kd with
+        | expr a b =>
+          cases b with
+          | true => exact absurd rfl (fun hh => h a u hh)
+          | false => simp [singleBasicExpr]
+        | _ => simp [singleBasicExpr]
+
+/-- C21, atomics: the OpenMP translation emits exactly one `omp atomic` / `omp critical` guard per
+    @atomic statement or region of the kernel (none is dropped, none is invented). -/
+theorem C21_atomics_guarded (t : Tree) : ∀ (c : SCtx), c.omp = true → guardCount (hostGo c t) = atomicCount t := by
+  induction t with
+  | nil => intro c _; simp [hostGo, guardCount, atomicCount]
+  | node n kids next ihk ihn =>
+    intro c homp
+    have hn := ihn c homp
+    obtain ⟨kind, uses⟩ := n
+    cases kind with
+    | okl o i h nb =>
+      cases o with
+      | true =>
+        simp only [hostGo]
+        rw [gc_ite_leaf _ _ (by simp), gc_node _ (by simp), gc_ite_leaf _ _ (by simp), ihk _ (by simp [homp]), hn]
+        simp [atomicCount]
+      | false =>
+        cases i with
+        | true =>
+          simp only [hostGo]
+          rw [gc_ite_leaf _ _ (by simp), gc_node _ (by simp), gc_ite_inc, ihk _ (by simp [homp]), hn]
+          simp [atomicCount]
+        | false =>
+          simp only [hostGo]
+          rw [gc_node _ (by simp), ihk c homp, hn]
+          simp [atomicCount]
+    | block a =>
+      cases a with
+      | true =>
+        simp only [hostGo, homp, Bool.true_and, ↓reduceIte]
+        split
+        · simp [TT.leaf, guardCount, atomicCount, hn, exprOut, singleBasicExpr]
+        · rename_i hne
+          simp only [TT.leaf, guardCount, reduceCtorEq, or_true, ↓reduceIte, false_or, ihk c homp, hn]
+          have hs : singleBasicExpr kids = false := single_false kids (fun a u h => hne a u h)
+          have : atomicCount (.node ⟨.block true, uses⟩ kids next) = 1 + atomicCount kids + atomicCount next := by
+            simp [atomicCount, hs]
+          rw [this]; omega
+      | false =>
+        simp only [hostGo, Bool.and_false, Bool.false_eq_true, ↓reduceIte]
+        rw [gc_node _ (by simp), ihk c homp, hn]
+        simp [atomicCount]
+    | decl dk => cases dk <;> simp [hostGo, TT.leaf, guardCount, atomicCount, hn]
+    | expr a b =>
+      cases a <;> cases b <;> simp [hostGo, homp, TT.leaf, guardCount, atomicCount, hn, exprOut] <;> omega
+    | for_ | while_ | switch_ | if_ | elif_ | else_ =>
+      simp only [hostGo]
+      rw [gc_node _ (by simp), ihk c homp, hn]
+      simp [atomicCount]
+    | barrier | brk | cont | ret => simp [hostGo, TT.leaf, guardCount, atomicCount, hn]
+
 /-- the pragma the source emits, and who rewrites @atomic -/
 theorem C21_source_facts : Occa.Gen.Okl.ompPragma = "omp parallel for" ∧ "openmp" ∈ Occa.Gen.Okl.atomicRewriters := by
   decide
